@@ -203,6 +203,9 @@ func v9Alphabet() (full []*v9Op, core []int) {
 	store("StoreLog", &raft.Log{Index: v9I63, Term: ^uint64(0), Type: raft.LogNoop, Data: opaqueP, AppendedAt: t1})
 	store("StoreLogs", &raft.Log{Index: 2, Term: 5, Type: raft.LogCommand, Data: mH, AppendedAt: t2}, &raft.Log{Index: 3, Term: 5, Type: raft.LogConfiguration, Extensions: ext})
 	s9 := store("StoreLogs", &raft.Log{Index: 7, Term: 6, Type: raft.LogCommand, Data: mG, AppendedAt: t1}, &raft.Log{Index: v9I63, Term: 6, Type: raft.LogCommand, Data: mF, Extensions: ext, AppendedAt: zero})
+	// a batch whose first entry has every optional field set and whose second has none: an encoder object
+	// that is reused across the entries of a batch must not leak fields from one entry into the next
+	store("StoreLogs", &raft.Log{Index: 1, Term: 9, Type: raft.LogCommand, Data: mA, Extensions: ext, AppendedAt: t1}, &raft.Log{Index: 2, Term: 9, Type: raft.LogNoop})
 	store("StoreLogProto", &raft.Log{Index: 1, Term: 7, Type: raft.LogCommand, Data: mD, Extensions: ext, AppendedAt: t2})
 	s11 := store("StoreLogProto", &raft.Log{Index: 3, Term: 7, Type: raft.LogCommand, Data: mE})
 	store("StoreLogProto", &raft.Log{Index: v9I63, Term: 8, Type: raft.LogConfiguration, Data: msgpack, Extensions: ext, AppendedAt: t1})
